@@ -966,6 +966,9 @@ class Unit:
         if symbol in cls._by_symbol:
             raise ValueError(f"A unit with symbol {symbol} is already defined")
 
+        if symbol and " " in symbol:
+            raise ValueError(f"{symbol!r} will not be parsable if it has spaces.")
+
         unit = cls(IdentityPrefix, {}, dimension, name, symbol)
         cls._base.add(unit)
         return unit
@@ -1009,12 +1012,10 @@ class Unit:
 
     def alias(self, name: Optional[str] = None, symbol: Optional[str] = None) -> None:
         """Adds an alternative name and/or symbol to the unit"""
+        # validate both before registering either, so that a rejected alias changes nothing
         if name:
             if name in self._by_name and self._by_name[name] is not self:
                 raise ValueError(f"A unit named {name} is already defined")
-
-            self.names = self.names + (name,)
-            self._by_name[name] = self
 
         if symbol:
             if symbol in self._by_symbol and self._by_symbol[symbol] is not self:
@@ -1023,6 +1024,11 @@ class Unit:
             if symbol and " " in symbol:
                 raise ValueError(f"{symbol!r} will not be parsable if it has spaces.")
 
+        if name:
+            self.names = self.names + (name,)
+            self._by_name[name] = self
+
+        if symbol:
             self.symbols = self.symbols + (symbol,)
             self._by_symbol[symbol] = self
 
